@@ -63,6 +63,11 @@ type Ctx struct {
 	lck  sync.Mutex
 	done bool
 
+	// headersDone is set once the response's header block, the one with the
+	// final status, has arrived. A header block after that is the trailers.
+	// The read loop reads and writes it holding lck.
+	headersDone bool
+
 	// conn is the connection the request went out on, for the cancel timer.
 	conn atomic.Pointer[Conn]
 
@@ -222,6 +227,7 @@ func acquireCtx(req *fasthttp.Request, res *fasthttp.Response) *Ctx {
 	ctx.Response = res
 	ctx.streamID = 0
 	ctx.done = false
+	ctx.headersDone = false
 	ctx.resolved = false
 	ctx.finished = false
 	ctx.armed = false
